@@ -304,7 +304,7 @@ class Ctx:
         path.write_text(json.dumps({"property": self.pid, "stage": stage, "input": inp,
                                     "verdict": verdict, "detail": detail}, indent=1, sort_keys=True))
         self.violations.append({"stage": stage, "verdict": verdict, "replay": str(path)})
-        if len(self.violations) <= 20:
+        if len(self.violations) <= int(os.environ.get("VERIF_MAXPRINT", "20")):
             print(f"VIOLATION property={self.pid} replay={path}", flush=True)
             print(f"  stage={stage} failing-clause={verdict}", flush=True)
 
